@@ -70,4 +70,6 @@ def malformed(draw, with_mutated=False):
     # a generated complete token + a character that cannot extend it
     c = draw(st.one_of(G.kern_data_cells(null_weight=0), G.clefs(), G.timesigs(), G.keysigs(), G.barlines()))
     g = draw(st.sampled_from(['!', '|', ',', '%', 'h', 'z', 'H', '=', '+', '!!x', ' ']))
-    return {'t': c['t'] + g, 'kind': k, 'strict': False}
+    # whether the appended character really is garbage depends on the token ('=1' + '=' is the valid barline '=1='),
+    # so this is labelled like an edited token: validity unknown to the harness
+    return {'t': c['t'] + g, 'kind': 'mutated', 'strict': False}
